@@ -114,7 +114,17 @@ where
 {
     let a = values.len();
     let mut got: Vec<u64> = untracked(Vec::new);
-    if let Take::Nth(j) = k {
+    if let Take::Fold = k {
+        // `Iterator::fold`: the closure receives every element
+        values.by_ref().fold((), |_, x| {
+            let v = x.val();
+            x.forget();
+            untracked(|| got.push(v));
+        });
+    } else if let Take::Count = k {
+        // `Iterator::count`: the iterator's consumer discards every element itself
+        let _ = values.by_ref().count();
+    } else if let Take::Nth(j) = k {
         // one call of `Iterator::nth`: the iterator discards `j` elements itself and hands out the next
         if let Some(x) = values.nth(j) {
             let v = x.val();
